@@ -15,11 +15,15 @@ for d in sorted(glob.glob(os.path.join(HERE, 'seeded', 'C*'))):
     for p, c in s.get('checks', {}).items():
         ids = sorted(set(re.findall(r'violated: (\S+)', ' '.join(c['lines']))))
         checks[p] = dict(exit_code=c['rc'], wall_s=c['wall_s'], reported=ids[:8])
+    initial = {}
+    si = os.path.join(d, 'seedtest.initial.json')
+    if os.path.exists(si):
+        for p, c in json.load(open(si)).get('checks', {}).items(): initial[p] = dict(exit_code=c['rc'], wall_s=c['wall_s'])
     meta = dict(property=prop, title=title, origin='written by an independent sub-agent that saw only the property text and a scratch worktree (nothing from /verif)',
                 needs_to_manifest=needs, suite_passes_with_change=s.get('suite_passes_with_patch'), demo_fails_with_change=s.get('demo_with_patch_rc') not in (0, None),
                 demo_passes_without_change=s.get('demo_without_patch_rc') == 0, header_kept_in_sync=s.get('patch_keeps_header_in_sync'),
                 what_was_run='tools/seedtest.py: scratch worktree (apply, build+run unedited suite, demo with/without), then git -C /repo apply patch.diff; ./check %s --tier quick; git -C /repo checkout -- .' % prop,
-                checks=checks, detected=any(c['exit_code'] == 1 for c in checks.values()))
+                checks=checks, checks_before_strengthening=initial, detected=any(c['exit_code'] == 1 for c in checks.values()))
     json.dump(meta, open(os.path.join(d, 'meta.json'), 'w'), indent=1)
     rows.append((os.path.basename(d), title, meta['detected'], '; '.join('%s: %s' % (p, ', '.join(c['reported'][:3]) or 'rc=%d' % c['exit_code']) for p, c in checks.items())))
 with open(os.path.join(HERE, 'seeded', 'README.md'), 'w') as f:
